@@ -236,6 +236,44 @@ theorem bboxWith_mono {m : M4 ℝ} (hm : M4.Affine m) {a b : BBox ℝ} (ha : WF 
   bboxWith_least_image ha (fun _ hp => bbox_contains_image hm (sub_contains h hp))
 
 
+/-! ## intersection and overlap -/
+
+/-- the intersection box is well formed exactly when the boxes overlap (otherwise `from_intersection` returns an inverted,
+    empty box: callers must test `overlaps` first) -/
+theorem inter_wf_iff_overlaps {a b : BBox ℝ} (ha : WF a) (hb : WF b) :
+    WF (a.fromIntersection b) ↔ a.overlaps b = true := by
+  obtain ⟨a1, a2, a3⟩ := ha
+  obtain ⟨b1, b2, b3⟩ := hb
+  simp only [WF, BBox.fromIntersection, swapGt_fst, swapGt_snd, BBox.overlaps, Bool.and_eq_true, real_ge, real_le,
+    max_le_iff, le_min_iff]
+  constructor
+  · rintro ⟨⟨⟨_, x2⟩, x3, _⟩, ⟨⟨_, y2⟩, y3, _⟩, ⟨_, z2⟩, z3, _⟩
+    exact ⟨⟨⟨x2, x3⟩, y2, y3⟩, z2, z3⟩
+  · rintro ⟨⟨⟨x1, x2⟩, y1, y2⟩, z1, z2⟩
+    exact ⟨⟨⟨a1, x1⟩, x2, b1⟩, ⟨⟨a2, y1⟩, y2, b2⟩, ⟨a3, z1⟩, z2, b3⟩
+
+/-- a non-overlapping pair has an empty intersection box: it contains no point -/
+theorem inter_empty_of_not_overlaps {a b : BBox ℝ} (ha : WF a) (hb : WF b) (h : a.overlaps b = false) (p : V3 ℝ) :
+    ¬ Contains (a.fromIntersection b) p := by
+  intro hp
+  have := (overlaps_iff_common_point ha hb).2 ⟨p, (inter_contains_iff a b p).1 hp⟩
+  rw [h] at this; exact Bool.false_ne_true this
+
+/-- `point_inside` is `overlaps` with the degenerate box of the point -/
+theorem pointInside_eq_overlaps_fromPoint (b : BBox ℝ) (p : V3 ℝ) :
+    b.pointInside p = b.overlaps (BBox.fromPoint p) := by
+  rw [Bool.eq_iff_iff]
+  simp only [BBox.pointInside, BBox.overlaps, BBox.fromPoint, Bool.and_eq_true, real_ge, real_le]
+  tauto
+
+/-- overlap is monotone: enlarging either box keeps an overlap -/
+theorem overlaps_mono {a a' b : BBox ℝ} (h : Sub a a') (ho : a.overlaps b = true) : a'.overlaps b = true := by
+  obtain ⟨h1, h2, h3, h4, h5, h6⟩ := h
+  simp only [BBox.overlaps, Bool.and_eq_true, real_ge, real_le] at ho ⊢
+  obtain ⟨⟨⟨x1, x2⟩, y1, y2⟩, z1, z2⟩ := ho
+  exact ⟨⟨⟨by linarith, by linarith⟩, by linarith, by linarith⟩, by linarith, by linarith⟩
+
+
 /-- non-vacuity: a concrete pair of boxes, their union and a third box above both -/
 example : Sub (BBox.fromUnion ⟨⟨0, 0, 0⟩, ⟨1, 1, 1⟩⟩ ⟨⟨2, -1, 0⟩, ⟨3, 0, 0⟩⟩ : BBox ℝ) ⟨⟨-1, -1, -1⟩, ⟨3, 1, 1⟩⟩ :=
   union_least (by simp [Sub]) (by simp [Sub]; norm_num)
